@@ -36,7 +36,8 @@ type concTx struct {
 	db     int
 	w      bool
 	wseen  int64 // writer acquisitions on this database up to and including this transaction's own
-	arr    int64 // arrival order (tie-break among readers)
+	tick   int64 // begin tick: orders the readers that saw the same number of writers (this extends real-time precedence)
+	arr    int64 // arrival order (last tie-break)
 	events []hx.Ev
 }
 
@@ -224,7 +225,7 @@ func (g *gen) histConc(o concOpts) {
 		atomic.AddInt64(&panics, int64(s.Panics))
 		txmu.Lock()
 		arr++
-		txs = append(txs, &concTx{db: d, w: w, wseen: wseen, arr: arr, events: s.R.Evs})
+		txs = append(txs, &concTx{db: d, w: w, wseen: wseen, tick: tick, arr: arr, events: s.R.Evs})
 		txmu.Unlock()
 	}
 	for i := 0; i < o.ngor; i++ {
@@ -276,7 +277,7 @@ func (g *gen) histConc(o concOpts) {
 				t.Commit(nil)
 				txmu.Lock()
 				arr++
-				txs = append(txs, &concTx{db: 0, w: true, wseen: atomic.LoadInt64(&c.wacq[0]), arr: arr, events: s.R.Evs})
+				txs = append(txs, &concTx{db: 0, w: true, wseen: atomic.LoadInt64(&c.wacq[0]), tick: atomic.LoadInt64(&c.tick), arr: arr, events: s.R.Evs})
 				txmu.Unlock()
 			}
 			close(resume)
@@ -302,7 +303,7 @@ func (g *gen) histConc(o concOpts) {
 							atomic.AddInt64(&panics, 1)
 							txmu.Lock()
 							arr++
-							txs = append(txs, &concTx{db: 0, w: false, wseen: 1 << 40, arr: arr, events: []hx.Ev{{"op": "merge", "panic": fmt.Sprint(r), "err": true, "t0": 0, "t1": 0}}})
+							txs = append(txs, &concTx{db: 0, w: false, wseen: 1 << 40, tick: atomic.LoadInt64(&c.tick), arr: arr, events: []hx.Ev{{"op": "merge", "panic": fmt.Sprint(r), "err": true, "t0": 0, "t1": 0}}})
 							txmu.Unlock()
 						}
 					}()
@@ -331,6 +332,7 @@ func (g *gen) histConc(o concOpts) {
 				e := hx.Ev{"op": "backup", "err": false, "o": emptyObs}
 				e["t0"] = g.s.R.Now()
 				c.bseen.Delete("b1")
+				btick := atomic.LoadInt64(&c.tick)
 				err := dbs[d].Backup(dir)
 				ws, ok := c.bseen.Load("b1")
 				if err != nil || !ok {
@@ -352,7 +354,7 @@ func (g *gen) histConc(o concOpts) {
 				if ok {
 					txmu.Lock()
 					arr++
-					txs = append(txs, &concTx{db: d, w: false, wseen: ws.(int64), arr: arr, events: []hx.Ev{e}})
+					txs = append(txs, &concTx{db: d, w: false, wseen: ws.(int64), tick: btick, arr: arr, events: []hx.Ev{e}})
 					txmu.Unlock()
 				}
 				time.Sleep(300 * time.Microsecond)
@@ -421,7 +423,7 @@ func (g *gen) histConc(o concOpts) {
 			s.Obs()
 			s.Close()
 		}
-		txs = append(txs, &concTx{db: d, w: false, wseen: 1 << 41, arr: 1 << 41, events: s.R.Evs})
+		txs = append(txs, &concTx{db: d, w: false, wseen: 1 << 41, tick: 1 << 41, arr: 1 << 41, events: s.R.Evs})
 		os.RemoveAll(opts[d].Dir)
 	}
 	// linearise: per database, writers in lock order, every reader after the
@@ -436,6 +438,9 @@ func (g *gen) histConc(o concOpts) {
 		}
 		if a.w != b.w {
 			return a.w
+		}
+		if a.tick != b.tick {
+			return a.tick < b.tick
 		}
 		return a.arr < b.arr
 	})
